@@ -477,7 +477,16 @@ func (fr *frame) step(ins ssa.Instruction) bool {
 		*cell = p.zero(ins.Type().Underlying().(*types.Pointer).Elem())
 		fr.set(ins, Ptr(cell))
 	case *ssa.MakeSlice:
-		ln := p.concretize(p.asBV64(fr.get(ins.Len)), "make len")
+		lt := p.asBV64(fr.get(ins.Len))
+		if p.makeCap > 0 && !lt.IsConst() {
+			// harness-declared bound: declared lengths above the cap are outside the claim
+			c := p.tb.Ule(lt, p.tb.BV(uint64(p.makeCap), 64))
+			if p.feasible(c) == Unsat {
+				panic(pathAbort{"prune", "make length above declared cap"})
+			}
+			p.assertPC(c)
+		}
+		ln := p.concretize(lt, "make len")
 		cp := p.concretize(p.asBV64(fr.get(ins.Cap)), "make cap")
 		if int64(ln) < 0 || cp < ln || cp > 1<<24 {
 			if int64(ln) < 0 || cp < ln {
